@@ -88,6 +88,52 @@ func init() {
 	initFuncs()
 	initMethods()
 	initPkgFuncs()
+	initGenericFuncs()
+}
+
+// GPick is a parameterless generic FUNCTION (generic functions with parameters share open finding
+// S12: the hidden dictionary is their first argument). Builder.Func keys it by name + pointer and
+// patches the shared shape body behind the instantiation's wrapper.
+//
+//go:noinline
+func GPick[T any]() T {
+	var z T
+	switch p := any(&z).(type) {
+	case *string:
+		fn.Ran(92)
+		*p = "picked"
+	case *int:
+		fn.Ran(93)
+		*p = 4242
+	}
+	return z
+}
+
+func initGenericFuncs() {
+	img, _ := simenv.Shared()
+	const pkg = "github.com/tencent/goom/verifsim/worlds/hist"
+	add := func(name, shape string, typ reflect.Type, fnv interface{}, call func() interface{}, mk func(rec *thunk.Rec) interface{}, ref interface{}, ran int) {
+		t := &Target{Idx: len(Targets), Name: pkg + ".GPick[" + name + "]", Typ: typ, Entry: reflect.ValueOf(fnv).Pointer(),
+			MkCb: mk, NumHow: 1, Kind: "func", Generic: true, NoOrigin: true}
+		if img != nil {
+			if e := img.Lookup(pkg + ".GPick[go.shape." + shape + "]"); e != 0 {
+				t.Entry = e
+			}
+		}
+		t.Call = func(form int, a []interface{}) []interface{} { return []interface{}{call()} }
+		t.Lookup = func(b *mocker.Builder, how int) mocker.ExportedMocker { return b.Func(fnv) }
+		t.Ref = func(a []interface{}) []interface{} { return []interface{}{ref} }
+		t.RanCount = func() int64 { return fn.RanCount(ran) }
+		Targets = append(Targets, t)
+	}
+	add("string", "string", reflect.TypeOf(GPick[string]), GPick[string], func() interface{} { return GPick[string]() },
+		func(rec *thunk.Rec) interface{} {
+			return func() string { return fn.As[string](rec.Enter([]interface{}{})[0]) }
+		}, "picked", 92)
+	add("int", "int", reflect.TypeOf(GPick[int]), GPick[int], func() interface{} { return GPick[int]() },
+		func(rec *thunk.Rec) interface{} {
+			return func() int { return fn.As[int](rec.Enter([]interface{}{})[0]) }
+		}, 4242, 93)
 }
 
 // localFoo lives in the package that calls goom (this one): Builder.ExportFunc("localFoo") without
